@@ -40,7 +40,7 @@ LEVEL_TEXT = ("Proved in Lean 4 about the executable model the driver runs (AslM
               "renaming, rc = number of handles, no dangling handle); array_refines_seq_partial - the same for the unguarded run under "
               "the hypothesis that no such operation occurs; quicksort_total / quicksort_sorted_perm / quicksort_stack_depth / driver_orders_strict_total / "
               "sort_spec - the transcribed Hoare quicksort never indexes outside its sequence, terminates, nests at most log2(n) calls (code after dff9640), and sort()/sort(desc) "
-              "return the sorted permutation for int, the counted type and String; (3) lifecycle - in every state the driver reaches "
+              "return the sorted permutation for int, the counted type and String; quicksort_sorted_perm_ties / sortby_spec - the same for every strict weak order (ties allowed): sortBy(key, asc/desc) returns a permutation with non-decreasing / non-increasing keys for EVERY key function, the exact tied arrangement being the run function's (K compares the exact sequence, String keyed by length); (3) lifecycle - in every state the driver reaches "
               "live objects = total length of live blocks, rc = number of handles >= 1, and with the last handle gone no block and no "
               "object remains; clone_independent_history / clone_independent_model - a clone shows the cloned elements after ANY later "
               "history that does not write through the clone's own handle; stack_lifo, queue_fifo; (4) array_full_counterexample - "
@@ -59,8 +59,7 @@ LEVEL_NOTE = ("Recursive element type (struct Node { int v; Array<Node> kids; }:
               "acquire-before-release for handles stored inside objects, in general). Known finding shared-growth: operations that would increase the capacity of a block whose rc > 1 are excluded (left out "
               "by harness and model; the theorems are about exactly those runs). Not covered by model or harness: converting "
               "constructor (operator=(Array<K>) only in the Array<Node> histories), operator=(Var), initializer-list constructor/assignment/append, map / map_ / with, "
-              "operator< of arrays, join, deprecated destroy()/ptr conversions, shuffle. sortBy: in bounds, terminating, permutation proved; sortedness only where the key order is strict total on the "
-              "elements (int, counted), String keys (length) with ties are compared by K only. sort is modelled on the element sequence "
+              "operator< of arrays, join, deprecated destroy()/ptr conversions, shuffle. sort is modelled on the element sequence "
               "(reads/assignments), not on cells: the pivot copy and the swap temporaries of quicksort never touch the model's live "
               "counter, so constructed-once/destroyed-once for those temporaries rests on the harness counter and LSan (K) only; the "
               "same holds for the rc++/rc-- pairs of temporaries inside clone()/concat(), which the model collapses. The history "
